@@ -51,22 +51,24 @@ theorem tdiv_two (a : Int) : a.tdiv 2 = if 0 ≤ a then a / 2 else -((-a) / 2) :
     rw [Int.neg_tdiv] at this
     omega
 
-/-- the `while (start <= end)` loop -/
-def bsLoop (hay : List Nat) (needle : Nat) (start end_ : Int) : Bool :=
-  if start ≤ end_ then
-    let middle := (start + end_).tdiv 2
-    let mv := hay.getD middle.toNat 0
-    if mv > needle then bsLoop hay needle start (middle - 1)
-    else if mv < needle then bsLoop hay needle (middle + 1) end_
-    else true
-  else false
-termination_by (end_ - start + 1).toNat
-decreasing_by
-  all_goals (simp only [tdiv_two]; split <;> omega)
+/-- the `while (start <= end)` loop.  The window `[start, end]` shrinks in every iteration, so
+    the loop runs at most `haystack_size + 1` times; `fuel` is that bound (it makes the function
+    structurally recursive, hence evaluable by the kernel) and never runs out: see
+    `bsLoop_fuel` in Proof/Hp.lean — the result does not depend on it. -/
+def bsLoop (hay : List Nat) (needle : Nat) : Nat → Int → Int → Bool
+  | 0, _, _ => false
+  | fuel + 1, start, end_ =>
+    if start ≤ end_ then
+      let middle := (start + end_).tdiv 2
+      let mv := hay.getD middle.toNat 0
+      if mv > needle then bsLoop hay needle fuel start (middle - 1)
+      else if mv < needle then bsLoop hay needle fuel (middle + 1) end_
+      else true
+    else false
 
 /-- `binary_search(haystack, haystack_size, needle)` -/
 def binarySearch (hay : List Nat) (needle : Nat) : Bool :=
-  if hay.length = 0 then false else bsLoop hay needle 0 ((hay.length : Int) - 1)
+  if hay.length = 0 then false else bsLoop hay needle (hay.length + 1) 0 ((hay.length : Int) - 1)
 
 /-- `qsort` with `hazard_pointer_compare` is trusted to produce the sorted permutation; for a
     list of numbers that permutation is unique, so it can be computed. -/
